@@ -59,7 +59,13 @@ def run_case(ctx, rng, index, casedir):
     if rng.random() < 0.02:
         n = 0
         sit["zero_record_files"] += 1
-    walks = ggaf.make_walks(g, rng, n, maxlen=6, forced=n >= 6)
+    # a compressed file of several MiB whose records end exactly on every multiple of 1 MiB of the
+    # decompressed stream (4.3 MiB on every change, 33 MiB in the thorough tier)
+    aligned = index == 17
+    if aligned:
+        n = ((4 << 20) + 300_000 if ctx.tier == "quick" else (33 << 20)) // 400 + 50
+        sit["files_with_records_ending_on_MiB_boundaries"] += 1
+    walks = ggaf.make_walks(g, rng, n, maxlen=6 if not aligned else 2, forced=n >= 6)
     lines = [ggaf.make_record(g, rng, w, f"r{index}_{i}", offsets="any", tags="safe").line for i, w in enumerate(walks)]
     # several records per read (supplementary alignments), adjacent and interleaved with other reads
     if len(lines) >= 3:
@@ -97,13 +103,17 @@ def run_case(ctx, rng, index, casedir):
         lines = out
         sit["unstable_path_files"] += 1
     mode = rng.choice(["plain", "plain", "bgzf"])
+    if aligned:
+        mode = "bgzf"
+        lines, hits = ggaf.align_records([l for l in lines if len(l) < 1900], unit=1 << 20, min_len=400)
+        sit["record_ends_on_MiB_boundaries"] += hits
     if mode != "plain":
         sit["bgzf_input"] += 1
     gaf = os.path.join(casedir, vary_name(rng, "in.gaf") + ("" if mode == "plain" else ".gz"))
     if rng.random() < 0.06:
         gaf = os.path.join(casedir, "phased.gaf.tmp")  # provisional name of the input = output name + ".tmp"
         sit["input_named_output_dot_tmp"] += 1
-    ggaf.write_gaf(gaf, lines, mode=mode, rng=rng, layout="tiny")
+    ggaf.write_gaf(gaf, lines, mode=mode, rng=rng, layout="tiny" if not aligned else "standard", **({"final_newline": True} if aligned else {}))
     # haplotag TSV
     rows = []
     truth = collections.defaultdict(list)
